@@ -81,6 +81,13 @@ func viewMatches(tx *Tx, m *refModel) bool {
 			return false
 		}
 		if buf[0] != rp.b0 || buf[1] != rp.b1 || buf[verifPageSize-1] != rp.last {
+			if verifParam("debug", 0) == 1 {
+				verifLogU64("mismatch page", uint64(rp.id))
+				verifLogU64("got b0", uint64(buf[0]))
+				verifLogU64("want b0", uint64(rp.b0))
+				verifLogU64("got last", uint64(buf[verifPageSize-1]))
+				verifLogU64("want last", uint64(rp.last))
+			}
 			return false
 		}
 	}
